@@ -292,8 +292,29 @@ func c08Scenarios(disk bool) []*schedScenario {
 		err := x.W[0].Repo().UpdateCRL(&core.CRLLocations{CRLDistributionPoints: []string{urlA}}, chains)
 		return fmt.Sprintf("refresh@%d-%d err=%v", s, vsched.Steps(), err != nil)
 	}}
+	// fetch_background: the first handshake with the distribution point starts the first fetch in the background while
+	// the origin publishes the next list and the update ticker fires. Only the new-only serial is probed (before
+	// anything is loaded every serial reads "not revoked", which is the old answer for this one).
+	bgBase := base
+	bgBase.Background, bgBase.Strict = true, false
+	bgSetup := func(x *schedCtx) {
+		w := NewCW(bgBase)
+		x.W = append(x.W, w)
+		if err := w.Provision(); err != nil {
+			panic(err)
+		}
+		vsched.Drain()
+		w.Net.Serve(urlA, "v1", c.vers[1])
+	}
+	publishTick := schedOp{Name: "publish+tick+read", Fn: func(x *schedCtx) string {
+		x.W[0].Net.Serve(urlA, "v2", c.vers[2])
+		x.W[0].Chk.VerifUpdateCRLs(true)
+		return reader(9, 2).Fn(x)
+	}}
+	bgPost := func(x *schedCtx) string { return reader(8, 2, 0).Fn(x) }
 	// probes: 0 common 1 oldOnly 2 newOnly 4 neither
 	return []*schedScenario{
+		{Name: name("a4-background-first-fetch-vs-publish-and-tick"), Setup: bgSetup, Ops: []schedOp{reader(1, 2), publishTick}, Post: bgPost},
 		{Name: name("a1-refresh-vs-2readers"), Setup: setup, Ops: []schedOp{refresh, reader(1, 1, 2, 0), reader(2, 2, 1, 4)}},
 		{Name: name("a2-configrefresh-vs-reader"), Setup: setup, Ops: []schedOp{cfgRefresh, reader(1, 1, 2, 1, 2)}},
 		{Name: name("a3-two-refreshes-vs-reader"), Setup: setup, Ops: []schedOp{refresh, cfgRefresh, reader(1, 2, 1, 0)}, ThoroughOnly: true},
